@@ -26,13 +26,18 @@ def head():
     return sh(["git", "-C", "/repo", "rev-parse", "--short", "HEAD"]).stdout.strip()
 
 
-def ensure_clean():
-    h = head()
+def ensure_clean(h=None, path=None):
+    h = h or head()
+    path = path or CLEAN
+    return _ensure_clean(h, path)
+
+
+def _ensure_clean(h, CLEAN):
     cur = sh(["git", "-C", CLEAN, "rev-parse", "--short", "HEAD"]).stdout.strip() if os.path.isdir(CLEAN) else ""
     if cur != h:
         sh(["git", "-C", "/repo", "worktree", "remove", "--force", CLEAN])
         shutil.rmtree(CLEAN, ignore_errors=True)
-        sh(["git", "-C", "/repo", "worktree", "add", "--detach", CLEAN])
+        sh(["git", "-C", "/repo", "worktree", "add", "--detach", CLEAN, h])
         shutil.copy("/repo/Cargo.lock", CLEAN)
     r = sh(["cargo", "build", "--offline", "-p", "rsass-cli"], cwd=CLEAN)
     if r.returncode != 0:
@@ -52,21 +57,32 @@ def confirm(prop, n, outdir):
     shutil.rmtree(wt, ignore_errors=True)
     sh(["git", "-C", "/repo", "worktree", "add", "--detach", wt])
     shutil.copy("/repo/Cargo.lock", wt)
+    clean = CLEAN
     try:
         r = sh(["git", "-C", wt, "apply", patch])
         if r.returncode != 0:
-            r = sh(["git", "-C", wt, "apply", "--3way", patch])
-            if r.returncode != 0:
-                res["rejected"] = "patch does not apply to current HEAD: " + r.stdout[-200:]
+            # the tree moved on (fix: commits landed) since the change was written: fall back to
+            # the commit the sub-agent worked on
+            seedwt = f"/tmp/seed-{prop}"
+            base = sh(["git", "-C", seedwt, "rev-parse", "--short", "HEAD"]).stdout.strip() if os.path.isdir(seedwt) else ""
+            if not base:
+                res["rejected"] = "patch does not apply to current HEAD and the base commit is unknown: " + r.stdout[-200:]
                 return res
-            sh(["git", "-C", wt, "reset", "-q"])
+            sh(["git", "-C", wt, "checkout", "-q", "--detach", base])
+            r = sh(["git", "-C", wt, "apply", patch])
+            if r.returncode != 0:
+                res["rejected"] = "patch applies neither to HEAD nor to its base " + base + ": " + r.stdout[-200:]
+                return res
+            res["base_commit"] = base
+            clean = "/tmp/sc-clean-" + base
+            _ensure_clean(base, clean)
         r = sh(["cargo", "build", "--offline", "-p", "rsass-cli"], cwd=wt)
         if r.returncode != 0:
             res["rejected"] = "does not compile: " + r.stdout[-300:]
             return res
         os.chmod(demo, 0o755)
         rp = sh(["bash", demo, wt], cwd=outdir, timeout=1800)
-        rc = sh(["bash", demo, CLEAN], cwd=outdir, timeout=1800)
+        rc = sh(["bash", demo, clean], cwd=outdir, timeout=1800)
         res["demo_patched_rc"] = rp.returncode
         res["demo_clean_rc"] = rc.returncode
         res["demo_patched_tail"] = rp.stdout[-400:]
@@ -92,6 +108,7 @@ def confirm(prop, n, outdir):
             shutil.copy(readme, os.path.join(d, "README.md"))
         meta = {"id": sid, "property": prop, "patch": "patch.diff", "demo": "demo.sh",
                 "base_commit": res["base_commit"],
+                "applies_to_head_at_confirmation": res["base_commit"] == head(),
                 "origin": "independent sub-agent given only the property text and a scratch worktree",
                 "needs": "see README.md (section for patch %d)" % n,
                 "confirmed": {"applies_and_compiles": True, "demo_fails_with_patch": True, "demo_passes_without": True,
